@@ -27,6 +27,7 @@ def plan(tier, seed):
     for tpl in ("two", "three", "four", "merge", "five"):
         n = {"two": 6, "three": 5, "four": 3, "merge": 3, "five": 1}[tpl] * (1 if q else 5)
         specs.append({"name": "dual-" + tpl, "kind": "dual", "tpl": tpl, "n": n, "timeout": 2400})
+    specs.append({"name": "migmat", "kind": "migmat", "n": 4 if q else 16, "timeout": 2400})
     specs.append({"name": "invariance", "kind": "invariance", "n": 6 if q else 40, "timeout": 2400})
     specs.append({"name": "yaml", "kind": "yaml", "once": True, "timeout": 2400})
     specs.append({"name": "ancient", "kind": "ancient", "n": 4 if q else 24, "timeout": 2400})
@@ -60,7 +61,7 @@ def cmp(a, b):
 def run(spec, rec):
     import dadi
     import demes
-    {"dual": run_dual, "invariance": run_invariance, "yaml": run_yaml, "ancient": run_ancient, "export": run_export,
+    {"dual": run_dual, "migmat": run_migmat, "invariance": run_invariance, "yaml": run_yaml, "ancient": run_ancient, "export": run_export,
      "slice": run_slice, "ancient5": run_ancient5}[spec["kind"]](spec, rec, dadi, demes)
 
 
@@ -198,6 +199,9 @@ def make_four(rng, demes):
     pB = float(rng.uniform(0.2, 0.8))
     mAD = float(rng.choice([0, rng.uniform(1e-4, 1e-3)]))
     mBA = float(rng.choice([0, rng.uniform(1e-4, 1e-3)]))
+    # one-way and unequal two-way flow between the two most recently founded demes (C and D)
+    mCD = float(rng.choice([0, rng.uniform(1e-4, 1e-3), rng.uniform(1e-4, 1e-3)]))
+    mDC = float(rng.choice([0, rng.uniform(1e-4, 1e-3)]))
     f = float(rng.uniform(0.05, 0.3))
 
     def build(units="generations", gt=1.0, c=1.0):
@@ -213,6 +217,10 @@ def make_four(rng, demes):
             b.add_migration(demes=["A", "D"], rate=mAD / c)
         if mBA:
             b.add_migration(source="A", dest="B", rate=mBA / c)
+        if mCD:
+            b.add_migration(source="C", dest="D", rate=mCD / c)
+        if mDC:
+            b.add_migration(source="D", dest="C", rate=mDC / c)
         b.add_pulse(sources=["D"], dest="B", proportions=[f], time=tu(tp))
         return b.resolve()
 
@@ -228,12 +236,12 @@ def make_four(rng, demes):
         phi = Integration.three_pops(phi, xx, Tb, nu1=NA / N0, nu2=NB / N0, nu3=NC / N0, m21=M(mBA))
         phi = PhiManip.phi_3D_to_4D(phi, 0, pB, xx, xx, xx, xx)                      # D from B (pB) and C (1-pB): [A, B, C, D]
         nuD = nu_of(fnD, ND, NDe, N0, 0.0, t3 / (2 * N0))
-        kw = dict(nu1=NA / N0, nu2=NB / N0, nu3=NC / N0, nu4=nuD, m21=M(mBA), m14=M(mAD), m41=M(mAD))
+        kw = dict(nu1=NA / N0, nu2=NB / N0, nu3=NC / N0, nu4=nuD, m21=M(mBA), m14=M(mAD), m41=M(mAD), m43=M(mCD), m34=M(mDC))
         phi = Integration.four_pops(phi, xx, Tc, **kw)
         phi = PhiManip.phi_4D_admix_into_2(phi, 0, 0, f, xx, xx, xx, xx)
         phi = Integration.four_pops(phi, xx, Tc + Td, initial_t=Tc, **kw)
         return Spectrum.from_phi(phi, ns, (xx, xx, xx, xx))
-    return build, prog, ["A", "B", "C", "D"], dict(fnD=fnD, t=(t1, t2, t3, tp), pB=pB, m=(mAD, mBA), f=f), True
+    return build, prog, ["A", "B", "C", "D"], dict(fnD=fnD, t=(t1, t2, t3, tp), pB=pB, m=(mAD, mBA, mCD, mDC), f=f), True
 
 
 def make_merge(rng, demes):
@@ -352,6 +360,84 @@ def run_dual(spec, rec, dadi, demes):
         if ok1 and ok2:
             rec.close("demes-equals-program", cmp(fd.data, fh.data), TOL, site="Spectrum.from_demes", tags=tags)
             rec.check("labels", fd.pop_ids == names, site="Spectrum.from_demes", tags=tags, observed=fd.pop_ids)
+
+
+def run_migmat(spec, rec, dadi, demes):
+    """N demes founded one after the other by branching, then a full random asymmetric migration matrix among all of them: every
+    ordered pair (i, j) of every dimension 2..5 is wired separately in the importer, so every pair gets its own rate"""
+    from dadi import Numerics, PhiManip, Integration, Spectrum
+    for ci in range(spec["n"]):
+        N = 2 + (ci % 4)
+        rng = rng_for(spec["seed"], "C16migmat", N, ci)
+        N0 = 1000.0
+        times = sorted([float(v) for v in rng.uniform(150, 900, size=N - 1)], reverse=True)     # founding times of demes 2..N (deme 1 and 2 at the first)
+        # make the times well separated
+        times = [times[0] + 60.0 * (N - 2 - 0)] + [t + 60.0 * (N - 2 - k) for k, t in enumerate(times[1:], 1)] if N > 2 else times
+        times = sorted(times, reverse=True)
+        sizes = [logu(rng, 400, 3000) for _ in range(N)]
+        parents = [None, None] + [int(rng.integers(0, k)) for k in range(2, N)]                  # index of the deme each later one branches from
+        rate = np.zeros((N, N))                     # rate[j, i]: demes migration source=j -> dest=i
+        for i in range(N):
+            for j in range(N):
+                if i != j and rng.random() < 0.75:
+                    rate[j, i] = float(rng.uniform(1e-4, 1.2e-3))
+        names = ["D%d" % (k + 1) for k in range(N)]
+        tlast = times[-1]
+
+        def build():
+            b = demes.Builder(time_units="generations")
+            b.add_deme("anc", epochs=[dict(start_size=N0, end_time=times[0])])
+            b.add_deme(names[0], ancestors=["anc"], epochs=[dict(start_size=sizes[0], end_time=0)])
+            b.add_deme(names[1], ancestors=["anc"], epochs=[dict(start_size=sizes[1], end_time=0)])
+            for k in range(2, N):
+                b.add_deme(names[k], ancestors=[names[parents[k]]], start_time=times[k - 1], epochs=[dict(start_size=sizes[k], end_time=0)])
+            for i in range(N):
+                for j in range(N):
+                    if rate[j, i]:
+                        b.add_migration(source=names[j], dest=names[i], rate=float(rate[j, i]), start_time=tlast, end_time=0)
+            return b.resolve()
+
+        def prog(ns_, p):
+            xx = Numerics.default_grid(p)
+            phi = PhiManip.phi_1D(xx)
+            phi = PhiManip.phi_1D_to_2D(xx, phi)
+            npop = 2
+            for k in range(2, N + 1):
+                t_start = times[k - 2]
+                t_end = times[k - 1] if k - 1 < len(times) else 0.0
+                kw = {PNAMES[npop][0][i]: sizes[i] / N0 for i in range(npop)}
+                if npop == N:
+                    for i in range(N):
+                        for j in range(N):
+                            if rate[j, i]:
+                                kw["m%d%d" % (i + 1, j + 1)] = 2 * N0 * float(rate[j, i])
+                phi = getattr(Integration, INTEG[npop])(phi, xx, (t_start - t_end) / (2 * N0), **kw)
+                if npop < N:
+                    par = parents[npop]
+                    if npop == 2:
+                        phi = (PhiManip.phi_2D_to_3D_split_1 if par == 0 else PhiManip.phi_2D_to_3D_split_2)(xx, phi)
+                    elif npop == 3:
+                        oh = [1.0 if i == par else 0.0 for i in range(3)]
+                        phi = PhiManip.phi_3D_to_4D(phi, oh[0], oh[1], xx, xx, xx, xx)
+                    else:
+                        oh = [1.0 if i == par else 0.0 for i in range(4)]
+                        phi = PhiManip.phi_4D_to_5D(phi, oh[0], oh[1], oh[2], xx, xx, xx, xx, xx)
+                    npop += 1
+            return Spectrum.from_phi(phi, ns_, [xx] * N)
+        ns = [int(rng.integers(2, {2: 6, 3: 4, 4: 3, 5: 2}[N] + 1)) for _ in range(N)]
+        pts = {2: [16, 20, 24], 3: [10, 12, 14], 4: [8, 9, 10], 5: [6, 7, 8]}[N]
+        if not rec.case("migmat-%d" % ci, {"N": N, "times": times, "parents": parents, "rate": rate.tolist(), "ns": ns}, nontrivial=True):
+            continue
+        tags = {"template": "migmat", "N": N}
+        ok, g = rec.noraise("graph-builds", build, site="demes.Builder", tags=tags)
+        if not ok:
+            rec.incon("emitter produced an invalid graph for the migration-matrix template: %r" % (g,))
+            continue
+        ok1, fd = rec.noraise("from_demes-returns", lambda: Spectrum.from_demes(g, names, ns, pts), site="Spectrum.from_demes", tags=tags)
+        ok2, fh = rec.noraise("program-returns", lambda: Numerics.make_extrap_func(prog)(ns, pts), site="dadi program", tags=tags)
+        if ok1 and ok2:
+            rec.close("demes-equals-program", cmp(fd.data, fh.data), TOL, site="Spectrum.from_demes", tags=tags)
+            rec.hit("migration-pairs-%dD" % N, int((rate > 0).sum()))
 
 
 def run_invariance(spec, rec, dadi, demes):
